@@ -125,9 +125,15 @@ def hook_with(hr, step, op, entry, anoms, ctx):
 
 def case(seed, ops=None, hook=None):
     """Twin replay: the same history without and with the query commands inserted after every step."""
+    pa = pb = None
+    if isinstance(seed, (tuple, list)) and seed[0] == 'fixed':
+        from .. import fixedhist
+        pa, ops = fixedhist.SCENARIOS[seed[1]]()
+        pb, _ = fixedhist.SCENARIOS[seed[1]]()
+        seed = 0
     pf = prof(seed)
-    a = histrun.run_history(seed, pf, tag='c17a', ops=ops)
-    b = histrun.run_history(seed, pf, tag='c17b', ops=[tuple(o) for o in a['ops']], hook=hook or hook_with)
+    a = histrun.run_history(seed, pf, tag='c17a', ops=ops, prog=pa)
+    b = histrun.run_history(seed, pf, tag='c17b', ops=[tuple(o) for o in a['ops']], hook=hook or hook_with, prog=pb)
     anoms = [x for x in b['anoms'] if x['cls'] in ('query-failed', 'roles', 'ood-lower', 'ood-upper', 'ood-after-build')]
     # differential verdict on traces only (which scripts ran, exit codes)
     # in a failing command which siblings were started before the failure became known depends on hash
